@@ -11,6 +11,7 @@ import Gv.Model.Gen
 import Gv.Proofs.GenLemmas
 import Gv.Proofs.UpdateSound
 import Gv.Proofs.PlanCheckUSound
+import Gv.Proofs.GenFields
 
 namespace Gv.Props.C05
 open Gv Gv.Str Gv.Gen Gv.Eval
@@ -293,5 +294,284 @@ example : WT pProgram.conv.env (.struct pSrcSome) (.struct pSource) :=
     simp [pInner, Fields.toList] at hf
     obtain ⟨_, rfl⟩ := hf
     exact .basic (k := .string) rfl)
+
+/-! ### settings → generated plan → runtime behaviour, on the fragment of unnamed structs (all depths below the root)
+
+The ROOT struct pair `struct sfs → struct tfs` of a method (`cx.fieldsTarget = struct tfs`) whose own settings are SIMPLE
+(`Gv.Spec.simpleCfg`): `goverter:ignore F`, or `goverter:map Src F` with a single source field name.  The field types are in the
+fragment FS of `C03_iff_unnamed_struct_fragment` (unnamed, exported fields, nested structs – which have NO settings: they are
+scoped to `FieldsTarget`, and a nested target is smaller than the root target, hence a different type).  Otherwise the
+hypotheses of the struct fragment.  `Gv.Spec.ConvertibleCfg` is the documented reading, `Gv.Gen.genFCfg` the reference plan. -/
+
+open Gv.Spec in
+/-- **C05 on the fragment: the generator honours the field settings exactly.**  At the method root,
+ 1. generation succeeds iff every target field is ignored or covered by the source field its `map` setting (else its own name)
+    names, with a convertible pair of types, and every configured name is a target field (`ConvertibleCfg`);
+ 2. on success the state is untouched and the plan is exactly `genFCfg`: `.skip` for an ignored field,
+    `.mapped tname [sname] [false] false _ cv .none` for the others, in target order; it passes the generalised plan checker
+    `checkTyU` (which accepts skipped fields and renamed single-step paths);
+ 3. otherwise it fails with a type mismatch below the root, `noMatch` (a target field without source), `cannotFind` (a `map`
+    naming a source field that does not exist) or `unknownField` (a setting for a field the target does not have).
+The hypothesis `hcorner` excludes two EMPTY structs in build position, where the Struct rule returns before looking at any
+setting (builder/struct.go, "Optimization for golang sets"). -/
+theorem C05_fields_fragment (c : Converter) (cx : Ctx) (st : GState) (z : Bool) (sfs tfs : Fields) (path : List PathElem)
+    (fuel : Nat) (mode : Mode) (pp : Bool)
+    (hs : inFSFields sfs = true) (ht : inFSFields tfs = true)
+    (hfuel : 2 * (tySize (.struct sfs) + tySize (.struct tfs)) ≤ fuel) (hmode : mode.isUpdate = false)
+    (hcorner : (!asgNL mode && sfs.length == 0 && tfs.length == 0) = false)
+    (hext : c.extend = [])
+    (hms : plainMethodsSUpTo (tySize (.struct sfs) + tySize (.struct tfs) - 1) st.methods = true)
+    (hu : cx.cfg.common.useUnderlying = false) (hsk : cx.cfg.common.skipCopySameType = false)
+    (hz : cx.cfg.common.useZeroValue = z) (hc : st.useCtor = false)
+    (h1 : cx.cfg.common.matchIgnoreCase = false) (h2 : cx.cfg.common.ignoreMissing = false)
+    (h4 : cx.cfg.autoMap = []) (h5 : cx.updateTarget = false)
+    (h6 : ∀ m ∈ st.methods, m.cfg.rawFieldSettings = [] ∨ (isPtrTy m.source = false ∧ isPtrTy m.target = false))
+    (hft : cx.fieldsTarget = .struct tfs) (hsimple : simpleCfg cx.cfg.fields = true) :
+    ((∃ plan st', noLookup c fuel cx mode pp (.struct sfs) (.struct tfs) path st = .ok (plan, st')) ↔
+      ConvertibleCfg z cx.cfg.fields sfs tfs) ∧
+    (∀ plan st', noLookup c fuel cx mode pp (.struct sfs) (.struct tfs) path st = .ok (plan, st') →
+        st' = st ∧ genFCfg z cx.cfg.fields (asgNL mode) sfs tfs = .ok plan ∧
+        (aliasFreeFields sfs = true → aliasFreeFields tfs = true →
+          arrayElemFreeFields sfs = true → structsOK (.struct tfs) = true →
+          ∀ p : Eval.Program, PlanCheck.checkTyU p plan (.struct sfs) (.struct tfs) = true)) ∧
+    (¬ ConvertibleCfg z cx.cfg.fields sfs tfs →
+        ∃ d, noLookup c fuel cx mode pp (.struct sfs) (.struct tfs) path st = .error d ∧
+          (d = .typeMismatch ∨ d = .typeMismatchPtr ∨ d = .noMatch ∨ d = .cannotFind ∨ d = .unknownField)) := by
+  have hsim := noLookup_cfg_root c cx st z sfs tfs path fuel mode pp hs ht hfuel hmode hext hms hu hsk hz hc
+    { noIgnoreCase := h1, noIgnoreMissing := h2, autoMap := h4, noUpdate := h5, noRaw := h6 } hft hsimple
+  rw [hsim]
+  refine ⟨?_, ?_, ?_⟩
+  · rw [← genFCfg_ok_iff z cx.cfg.fields (asgNL mode) sfs tfs hcorner]
+    constructor
+    · rintro ⟨plan, st', h⟩
+      cases hg : genFCfg z cx.cfg.fields (asgNL mode) sfs tfs with
+      | ok q => exact ⟨q, rfl⟩
+      | error d => rw [hg] at h; cases h
+    · rintro ⟨q, hq⟩; exact ⟨q, st, by rw [hq]; rfl⟩
+  · intro plan st' h
+    cases hg : genFCfg z cx.cfg.fields (asgNL mode) sfs tfs with
+    | error d => rw [hg] at h; cases h
+    | ok q =>
+      rw [hg] at h
+      obtain ⟨rfl, rfl⟩ : q = plan ∧ st = st' := by simpa [ret] using h
+      exact ⟨rfl, rfl, fun ha1 ha2 ha3 ha4 p => genFCfg_checkedU p z _ _ sfs tfs q hg hs ht ha1 ha2 ha3 ha4⟩
+  · intro hn
+    cases hg : genFCfg z cx.cfg.fields (asgNL mode) sfs tfs with
+    | ok q => exact absurd ((genFCfg_ok_iff z _ _ sfs tfs hcorner).mp ⟨q, hg⟩) hn
+    | error d => exact ⟨d, rfl, genFCfg_error z _ _ sfs tfs d hg⟩
+
+open Gv.Spec in
+/-- **the same for a whole converter with one declared `struct → struct` method carrying the settings**: `generate` (setup and
+validation of the field settings, the dirty loop, `buildMethod`) succeeds iff `ConvertibleCfg`; the table is then the declared
+method with body `return <genFCfg plan>`; otherwise the run fails with one of the five diagnostics and emits nothing. -/
+theorem C05_fields_fragment_generate (c : Converter) (d : Declared) (z : Bool) (fuel rounds : Nat) (sfs tfs : Fields)
+    (hup : d.updateTarget = false) (hctor : d.cfg.constructor = none)
+    (hsrc : d.source = .struct sfs) (htgt : d.target = .struct tfs)
+    (hs : inFSFields sfs = true) (ht : inFSFields tfs = true)
+    (hfuel : 2 * (tySize (.struct sfs) + tySize (.struct tfs)) < fuel) (hrounds : 2 ≤ rounds)
+    (hcorner : (sfs.length == 0 && tfs.length == 0) = false)
+    (hext : c.extend = [])
+    (hu : d.cfg.common.useUnderlying = false) (hsk : d.cfg.common.skipCopySameType = false)
+    (hz : d.cfg.common.useZeroValue = z)
+    (h1 : d.cfg.common.matchIgnoreCase = false) (h2 : d.cfg.common.ignoreMissing = false)
+    (h4 : d.cfg.autoMap = []) (hsimple : simpleCfg d.cfg.fields = true) :
+    ((∃ ms, generate c [d] fuel rounds = .ok ms) ↔ ConvertibleCfg z d.cfg.fields sfs tfs) ∧
+    (∀ ms, generate c [d] fuel rounds = .ok ms →
+        ∃ plan, genFCfg z d.cfg.fields false sfs tfs = .ok plan ∧
+          ms = [{ declaredMethod d with dirty := false, body := some (.convert plan) }] ∧
+          (aliasFreeFields sfs = true → aliasFreeFields tfs = true →
+            arrayElemFreeFields sfs = true → structsOK (.struct tfs) = true →
+            PlanCheck.checkProgU { conv := c, methods := ms } = true)) ∧
+    (¬ ConvertibleCfg z d.cfg.fields sfs tfs →
+        ∃ e, generate c [d] fuel rounds = .error e ∧
+          (e = .typeMismatch ∨ e = .typeMismatchPtr ∨ e = .noMatch ∨ e = .cannotFind ∨ e = .unknownField)) := by
+  have hcorner' : (!false && sfs.length == 0 && tfs.length == 0) = false := by simpa using hcorner
+  rw [generate_single_cfg c d z fuel rounds sfs tfs hup hctor hsrc htgt hs ht hfuel hrounds hext hu hsk hz h1 h2 h4 hsimple,
+    ← genFCfg_ok_iff z d.cfg.fields false sfs tfs hcorner']
+  refine ⟨?_, ?_, ?_⟩
+  · constructor
+    · rintro ⟨ms, h⟩
+      cases hg : genFCfg z d.cfg.fields false sfs tfs with
+      | ok q => exact ⟨q, rfl⟩
+      | error e => rw [hg] at h; cases h
+    · rintro ⟨q, hq⟩; exact ⟨_, by rw [hq]⟩
+  · intro ms h
+    cases hg : genFCfg z d.cfg.fields false sfs tfs with
+    | error e => rw [hg] at h; cases h
+    | ok q =>
+      rw [hg] at h
+      simp only [Except.ok.injEq] at h
+      refine ⟨q, rfl, h.symm, fun ha1 ha2 ha3 ha4 => ?_⟩
+      subst h
+      have hq := genFCfg_checkedU { conv := c, methods := [{ declaredMethod d with dirty := false, body := some (.convert q) }] }
+        z _ false sfs tfs q hg hs ht ha1 ha2 ha3 ha4
+      have hshape : ∃ plans, q = .structc plans false := by
+        unfold genFCfg at hg
+        simp only [hcorner', Bool.false_eq_true, if_false] at hg
+        cases hgf : genFieldsCfg z d.cfg.fields sfs tfs with
+        | error e => rw [hgf] at hg; cases hg
+        | ok ps =>
+          simp only [hgf] at hg
+          split at hg
+          · cases hg; exact ⟨_, rfl⟩
+          · cases hg
+      obtain ⟨plans, rfl⟩ := hshape
+      simp [PlanCheck.checkProgU, PlanCheck.checkBodyU, PlanCheck.checkConvertU, declaredMethod, hsrc, htgt]
+      simpa [declaredMethod, hsrc, htgt] using hq
+  · intro hn
+    cases hg : genFCfg z d.cfg.fields false sfs tfs with
+    | ok q => exact absurd ⟨q, hg⟩ hn
+    | error e => exact ⟨e, rfl, genFCfg_error z _ _ sfs tfs e hg⟩
+
+open Gv.Typing Gv.Spec Gv.Sound in
+/-- **C05 end to end on the fragment: from the settings (`ignore`, plain `map` renames) to the runtime behaviour, for all values.**
+If `generate` succeeds for a converter with one declared `struct → struct` method with simple settings (field types anywhere in
+FS; kinds alias-free, no array directly inside a list or field, every target struct non-empty with distinct field names), then
+for EVERY well-typed source struct, every fuel and every outcome of evaluating the generated method the result is a struct
+in which
+ * every target field that the settings IGNORE holds the zero value of its type (it is left unassigned);
+ * every other target field `F : tty` holds the image `y` of a value `a : sty` (`ImgOnto`, onto the zero value), where `a` is
+   the value the one-step path `[Src]` names in the source (`FieldSrc`) and `Src` is the source field named by
+   `goverter:map Src F`, else `F` itself;
+ * in general `FieldOutcome` holds for the field's plan, which is the one `genFieldsCfg` lists. -/
+theorem C05_fields_end_to_end (c : Converter) (d : Declared) (z : Bool) (fuel rounds : Nat) (sfs tfs : Fields)
+    (hup : d.updateTarget = false) (hctor : d.cfg.constructor = none)
+    (hsrc : d.source = .struct sfs) (htgt : d.target = .struct tfs)
+    (hs : inFSFields sfs = true) (ht : inFSFields tfs = true)
+    (hfuel : 2 * (tySize (.struct sfs) + tySize (.struct tfs)) < fuel) (hrounds : 2 ≤ rounds)
+    (hext : c.extend = [])
+    (hu : d.cfg.common.useUnderlying = false) (hsk : d.cfg.common.skipCopySameType = false)
+    (hz : d.cfg.common.useZeroValue = z)
+    (h1 : d.cfg.common.matchIgnoreCase = false) (h2 : d.cfg.common.ignoreMissing = false)
+    (h4 : d.cfg.autoMap = []) (hsimple : simpleCfg d.cfg.fields = true)
+    (ha1 : aliasFreeFields sfs = true) (ha2 : aliasFreeFields tfs = true) (ha3 : arrayElemFreeFields sfs = true)
+    (ha4 : structsOK (.struct tfs) = true)
+    (ms : List GenMethod) (hgen : generate c [d] fuel rounds = .ok ms) :
+    ∃ ps, genFieldsCfg z d.cfg.fields sfs tfs = .ok ps ∧
+      ∀ (efuel : Nat) (fs : List (S × Val)) (_ : WT c.env (.struct fs) (.struct sfs)) (cs : List Val) (n : Nat) (v' : Val) (n' : Nat),
+        Eval.callMethod { conv := c, methods := ms } efuel 0 (.struct fs) cs n = .ok (v', n') →
+        ∃ ws, v' = .struct ws ∧
+          ∀ (i : Nat) (tf : FieldInfo) (tty : Ty), tfs.toList[i]? = some (tf, tty) →
+            ((cfgOf d.cfg.fields tf.name).ignore = true →
+              (erase.eraseFields ws).lookup tf.name = some (erase (zeroVal c.env 63 tty))) ∧
+            ((cfgOf d.cfg.fields tf.name).ignore = false →
+              ∃ sty a y, FieldSrc c.env (.struct sfs) (.struct fs) [srcName (cfgOf d.cfg.fields tf.name) tf.name] sty a ∧
+                (erase.eraseFields ws).lookup tf.name = some y ∧
+                ImgOnto c.env (CtorSig { conv := c, methods := ms }) sty tty a (erase (zeroVal c.env 63 tty)) y) ∧
+            ∃ f, ps[i]? = some f ∧
+              FieldOutcome c.env (CtorSig { conv := c, methods := ms }) (.struct sfs) (.struct fs) tf tty
+                (erase.eraseFields (zeroVal.zeroFields c.env 63 tfs.toList)) (erase.eraseFields ws) f := by
+  have hne : (sfs.length == 0 && tfs.length == 0) = false := by
+    simp only [structsOK, Bool.and_eq_true] at ha4
+    cases tfs <;> simp_all [Fields.length]
+  have hG := C05_fields_fragment_generate c d z fuel rounds sfs tfs hup hctor hsrc htgt hs ht hfuel hrounds hne hext hu hsk hz h1 h2
+    h4 hsimple
+  obtain ⟨plan, hplan, hms, hchk⟩ := hG.2.1 ms hgen
+  have hchk := hchk ha1 ha2 ha3 ha4
+  -- the plan is a struct node over the field plans
+  unfold genFCfg at hplan
+  have hne' : (!false && sfs.length == 0 && tfs.length == 0) = false := by simpa using hne
+  simp only [hne', Bool.false_eq_true, if_false] at hplan
+  cases hgf : genFieldsCfg z d.cfg.fields sfs tfs with
+  | error e => rw [hgf] at hplan; cases hplan
+  | ok ps =>
+    simp only [hgf] at hplan
+    split at hplan
+    · cases hplan
+      refine ⟨ps, rfl, ?_⟩
+      intro efuel fs hwt cs n v' n' hev
+      subst hms
+      have hsu : under c.env (Ty.struct sfs) = .struct sfs := rfl
+      have htu : under c.env (Ty.struct tfs) = .struct tfs := rfl
+      obtain ⟨ws, hv, hall⟩ := C05_composite_ignored_unassigned
+        { conv := c, methods := [{ declaredMethod d with dirty := false, body := some (.convert (.structc (FieldPlans.ofList ps) false)) }] }
+        hchk efuel 0 _ (FieldPlans.ofList ps) false rfl rfl sfs tfs
+        (by simp [declaredMethod, hsrc, under]) (by simp [declaredMethod, htgt, under]) fs
+        (by simpa [declaredMethod, hsrc] using hwt) cs n v' n' hev
+      refine ⟨ws, hv, fun i tf tty hi => ?_⟩
+      obtain ⟨f, hf, hskip, hout⟩ := hall i tf tty hi
+      rw [toList_ofList] at hf
+      refine ⟨fun hig => ?_, fun hig => ?_, f, hf, by simpa [declaredMethod, hsrc] using hout⟩
+      · have := genFieldsCfg_skip_at z d.cfg.fields sfs tfs ps hgf i tf tty hi hig
+        rw [hf] at this
+        exact hskip tf.name (by simpa using this)
+      · obtain ⟨sty, cv, _, _, hmp⟩ := genFieldsCfg_mapped_at z d.cfg.fields sfs tfs ps hgf i tf tty hi hig
+        obtain ⟨ws', sty', a, hv'', hfs, _, _, himg, _⟩ := C05_composite_paths
+          { conv := c, methods := [{ declaredMethod d with dirty := false, body := some (.convert (.structc (FieldPlans.ofList ps) false)) }] }
+          hchk efuel 0 _ (FieldPlans.ofList ps) false rfl rfl sfs tfs
+          (by simp [declaredMethod, hsrc, under]) (by simp [declaredMethod, htgt, under]) fs
+          (by simpa [declaredMethod, hsrc] using hwt) cs n v' n' hev i tf tty hi _ _ _ _ _ _ _
+          (by rw [toList_ofList]; exact hmp)
+        have hws : ws' = ws := by rw [hv] at hv''; cases hv''; rfl
+        subst hws
+        obtain ⟨y, hy, him⟩ := himg (.inl rfl)
+        exact ⟨sty', a, y, by simpa [declaredMethod, hsrc] using hfs, hy, him⟩
+    · cases hplan
+
+/-! non-vacuity: `Convert(struct{Name string; Age int; Extra bool}) struct{Title string; Age int; Extra bool}` with
+`goverter:map Name Title` and `goverter:ignore Extra`: generated, with exactly the expected plan; with a setting for a field the
+target does not have it is rejected with `unknownField`; the ignore-only variant satisfies every hypothesis of the end-to-end
+theorem -/
+
+def fld (n : String) : FieldInfo := { name := n.toList, exported := true, embedded := false, pkg := [] }
+def cSrc : Fields := .cons (fld "Name") (.basic .string) (.cons (fld "Age") (.basic .int) (.cons (fld "Extra") (.basic .bool) .nil))
+def cTgt : Fields := .cons (fld "Title") (.basic .string) (.cons (fld "Age") (.basic .int) (.cons (fld "Extra") (.basic .bool) .nil))
+def cConverter : Converter := { env := [], common := {}, outputPkg := [], customs := [], extend := [], orc := {} }
+def cDecl (src tgt : Fields) (fields : List (S × FieldCfg)) : Declared :=
+  { name := "Convert".toList, source := .struct src, target := .struct tgt,
+    args := [{ name := "source".toList, use := .source, ty := .struct src }], contexts := [], returnError := false,
+    updateTarget := false,
+    cfg := { common := {}, fields := fields, rawFieldSettings := ["map Name Title".toList, "ignore Extra".toList] } }
+def cCfg : List (S × FieldCfg) := [("Title".toList, { source := "Name".toList }), ("Extra".toList, { ignore := true })]
+
+open Gv.Spec in
+example : generate cConverter [cDecl cSrc cTgt cCfg] =
+    .ok [{ declaredMethod (cDecl cSrc cTgt cCfg) with dirty := false, body := some (.convert (.structc
+      (.cons (.mapped "Title".toList ["Name".toList] [false] false false .ident .none)
+        (.cons (.mapped "Age".toList ["Age".toList] [false] false false .ident .none)
+          (.cons (.skip "Extra".toList) .nil))) false)) }] := by
+  rw [generate_single_cfg cConverter (cDecl cSrc cTgt cCfg) false 200 64 cSrc cTgt rfl rfl rfl rfl (by decide) (by decide) (by decide)
+    (by decide) rfl rfl rfl rfl rfl rfl rfl (by decide)]
+  have hg : genFCfg false cCfg false cSrc cTgt = .ok (.structc
+      (.cons (.mapped "Title".toList ["Name".toList] [false] false false .ident .none)
+        (.cons (.mapped "Age".toList ["Age".toList] [false] false false .ident .none)
+          (.cons (.skip "Extra".toList) .nil))) false) := by
+    simp [genFCfg, genFieldsCfg, cCfg, cSrc, cTgt, cfgOf, srcName, fieldTy, fld, Fields.length, genF_basic, cfgKnown, isPtrTy,
+      FieldPlans.ofList, List.lookup]
+  show (match genFCfg false cCfg false cSrc cTgt with | .ok plan => _ | .error e => _) = _
+  rw [hg]
+
+open Gv.Spec in
+/-- a setting that names no target field makes generation fail -/
+example : generate cConverter [cDecl cSrc cTgt (cCfg ++ [("Nope".toList, { ignore := true })])] = .error .unknownField := by
+  rw [generate_single_cfg cConverter _ false 200 64 cSrc cTgt rfl rfl rfl rfl (by decide) (by decide) (by decide)
+    (by decide) rfl rfl rfl rfl rfl rfl rfl (by decide)]
+  have hg : genFCfg false (cCfg ++ [("Nope".toList, { ignore := true })]) false cSrc cTgt = .error .unknownField := by
+    simp [genFCfg, genFieldsCfg, cCfg, cSrc, cTgt, cfgOf, srcName, fieldTy, fld, Fields.length, genF_basic, cfgKnown, isPtrTy,
+      List.lookup]
+  show (match genFCfg false (cCfg ++ [("Nope".toList, { ignore := true })]) false cSrc cTgt with | .ok plan => _ | .error e => _) = _
+  rw [hg]
+
+open Gv.Spec in
+/-- the ignore-only configuration `ignore Extra` on `struct{Age; Extra} → struct{Age; Extra}` meets every hypothesis of
+`C05_fields_end_to_end` and is generated -/
+example :
+    let src : Fields := .cons (fld "Age") (.basic .int) (.cons (fld "Extra") (.basic .bool) .nil)
+    let d := cDecl src src [("Extra".toList, { ignore := true })]
+    simpleCfg d.cfg.fields = true ∧ aliasFreeFields src = true ∧ arrayElemFreeFields src = true ∧
+      structsOK (.struct src) = true ∧ inFSFields src = true ∧ ∃ ms, generate cConverter [d] = .ok ms := by
+  intro src d
+  refine ⟨by decide, by decide, by decide, by decide, by decide, ?_⟩
+  have h := C05_fields_fragment_generate cConverter d false 200 64 src src rfl rfl rfl rfl (by decide) (by decide) (by decide) (by decide)
+    (by decide) rfl rfl rfl rfl rfl rfl rfl (by decide)
+  apply h.1.mpr
+  exact ⟨.mapped (sty := .basic .int) (by decide) (by simp [fieldTy, srcName, cfgOf, fld, src, d, cDecl, List.lookup]) (.basic rfl)
+    (.ignored (by simp [cfgOf, d, cDecl, fld, List.lookup]) .nil), by decide⟩
+
+open Gv.Spec in
+/-- the configuration `map Name Title` + `ignore Extra` meets every hypothesis of `C05_fields_end_to_end` -/
+example : simpleCfg (cDecl cSrc cTgt cCfg).cfg.fields = true ∧ aliasFreeFields cSrc = true ∧ aliasFreeFields cTgt = true ∧
+    arrayElemFreeFields cSrc = true ∧ structsOK (.struct cTgt) = true ∧ inFSFields cSrc = true ∧ inFSFields cTgt = true := by
+  decide
 
 end Gv.Props.C05
